@@ -466,19 +466,45 @@ static std::string handle_obs(const std::vector<std::string> &t)
 #if OPENTELEMETRY_ABI_VERSION_NO >= 2
       tick();
       // Record(value) / Record(value, context) / Record(value, attributes) / Record(value, attributes, context) in rotation
-      const size_t form = w.nobs++ % 2;
+      const size_t nth  = w.nobs++;
+      const size_t form = nth % 2;        // without / with a Context
+      const size_t how  = (nth / 2) % 3;  // attributes as KeyValueIterable / container (template overload) / initializer list
       opentelemetry::context::Context octx{};
       auto rec = [&](auto &g, auto val) {
+        std::string sval = "s" + std::to_string(a);
         if (a == 0)
         {
           if (form == 0) g->Record(val);
           else g->Record(val, octx);
         }
-        else
+        else if (how == 0)
           with_attrs(a, [&](const common::KeyValueIterable &kv) {
             if (form == 0) g->Record(val, kv);
             else g->Record(val, kv, octx);
           });
+        else if (how == 1)
+        {
+          std::map<std::string, common::AttributeValue> m{{"k", static_cast<int64_t>(a)}};
+          if (a % 3 == 2) m["z"] = nostd::string_view(sval);
+          else if (a % 3 == 0) m["b"] = true;
+          if (form == 0) g->Record(val, m);
+          else g->Record(val, m, octx);
+        }
+        else if (a % 3 == 1)
+        {
+          if (form == 0) g->Record(val, {{"k", static_cast<int64_t>(a)}});
+          else g->Record(val, {{"k", static_cast<int64_t>(a)}}, octx);
+        }
+        else if (a % 3 == 2)
+        {
+          if (form == 0) g->Record(val, {{"z", nostd::string_view(sval)}, {"k", static_cast<int64_t>(a)}});
+          else g->Record(val, {{"z", nostd::string_view(sval)}, {"k", static_cast<int64_t>(a)}}, octx);
+        }
+        else
+        {
+          if (form == 0) g->Record(val, {{"k", static_cast<int64_t>(a)}, {"b", true}});
+          else g->Record(val, {{"k", static_cast<int64_t>(a)}, {"b", true}}, octx);
+        }
       };
       if (w.dbl[ins]) rec(w.dgauges[ins], static_cast<double>(v) / 1024.0);
       else rec(w.gauges[ins], static_cast<int64_t>(v));
